@@ -302,7 +302,7 @@ def main():
     quick = ck.tier == "quick"
     tmp = tempfile.mkdtemp(prefix="gtv-c17-")
     try:
-        for it in range(3 if quick else 40):
+        for it in range(3 if quick else 20):
             with_reads = it % 3 == 2
             nrec = 200 if with_reads else (1500 if it % 3 == 0 else 60)
             g, lines, p, nblocks = build_inputs(rng, tmp, nrec, with_reads)
